@@ -32,7 +32,9 @@ AXES = [
     ('wide', [False, True]),             # 14 channels: more than the 12-channel neighbourhood
     ('label', ['', 'probe00', 'a']),      # 'a': a label that is a substring of the file names
     ('factor', [1, 2.5]),
-    ('symlinked', [False, True]),        # per-spike vectors of the source are links to the sorter's files
+    ('symlinked', [False, True]),
+    ('nsw', [4, 5]),                     # even / odd number of template samples
+    ('late_spike', [False, True]),       # the last spike lies after the end of the raw data        # per-spike vectors of the source are links to the sorter's files
 ]
 
 ST_FULL = [0, 1, 2, 3, 1, 0, 3, 2]
@@ -70,6 +72,9 @@ def make_spec(cfg, fill):
                     if cfg['kslabel'] else {})}
     if cfg.get('wide'):
         spec.update(n_channels=14, geometry='col14')
+    spec['nsw'] = cfg.get('nsw', 4)
+    if cfg.get('late_spike'):
+        spec['spike_samples'] = [2, 9, 16, 23, 30, 37, 44, spec['n_raw'] + 5]
     return spec
 
 
